@@ -178,6 +178,7 @@ static char **parsec_argv_split_inter(const char *src_string, int delimiter,
   char *argtemp;
   int argc = 0;
   size_t arglen;
+  const char *whole_string = src_string;
 
   while (src_string && *src_string) {
     p = src_string;
@@ -236,6 +237,15 @@ static char **parsec_argv_split_inter(const char *src_string, int delimiter,
     }
 
     src_string = p + 1;
+  }
+
+  /* a trailing delimiter is followed by one more (empty) field */
+
+  if (include_empty && NULL != whole_string && '\0' != *whole_string &&
+      whole_string[strlen(whole_string) - 1] == (char)delimiter) {
+    arg[0] = '\0';
+    if (PARSEC_SUCCESS != parsec_argv_append(&argc, &argv, arg))
+      return NULL;
   }
 
   /* All done */
